@@ -347,3 +347,75 @@ def rule_rounding(db, chk, cfg, rule="ROUND"):
                 chk.violation(rule, f.qual, "bare-cast", "scaling helper converts double to int64 with a bare cast (truncation) at %s" % where(casts[0]),
                               where(casts[0]), cfg=cfg)
     return n
+
+
+def rule_clipperd_scale_table(db, chk, cfg, rule="SCALE.ClipperD-table"):
+    """ClipperD's scale for every valid precision: the smallest power of two above 10^precision (finite domain, exhaustive).
+    The constructor's arithmetic expression is interpreted from the AST with the C math functions it names."""
+    import math
+    from fractions import Fraction
+    from ..evalx import Interp, Unsupported
+    from .e5_errors import E5
+    ctor = [f for f in db.funcs if f.cls == "ClipperD" and f.kind == "CXXConstructorDecl"][0]
+    M = E5(db, chk, cfg).max_prec
+    p = ctor.params[0]["name"]
+    assign = None
+    for s in kids(ctor.body):
+        s0 = strip(s)
+        if s0.get("kind") == "BinaryOperator" and s0.get("opcode") == "=" and canon(kids(s0)[0]) == "scale_":
+            assign = kids(s0)[1]
+    if assign is None:
+        raise AnalysisBroken("assignment to scale_ not found in ClipperD's constructor")
+
+    def hook(name, argv, node):
+        if argv is None:
+            return NotImplemented
+        a = [float(x) if isinstance(x, (int, float)) else x for x in argv]
+        try:
+            if name == "pow":
+                return math.pow(a[0], a[1])
+            if name == "ilogb":
+                return math.frexp(a[0])[1] - 1
+            if name in ("exp2",):
+                return math.pow(2.0, a[0])
+            if name in ("log2",):
+                return math.log2(a[0])
+            if name in ("log10",):
+                return math.log10(a[0])
+            if name in ("log",):
+                return math.log(a[0])
+            if name in ("ceil",):
+                return float(math.ceil(a[0]))
+            if name in ("floor",):
+                return float(math.floor(a[0]))
+            if name in ("round",):
+                return float(math.floor(a[0] + 0.5)) if a[0] >= 0 else -float(math.floor(-a[0] + 0.5))
+            if name in ("ldexp", "scalbn"):
+                return math.ldexp(a[0], int(a[1]))
+        except (ValueError, OverflowError):
+            return float("nan")
+        return NotImplemented
+    n = 0
+    bad = []
+    for prec in range(-M, M + 1):
+        try:
+            got = Interp(db, {p: prec, "radix": 2}, call_hook=hook).ev(assign)
+        except Unsupported as e:
+            raise AnalysisBroken("cannot interpret ClipperD's scale formula %s: %s" % (canon(assign)[:80], e))
+        ten = Fraction(10) ** prec
+        k = 0
+        while Fraction(2) ** k <= ten:
+            k += 1
+        while Fraction(2) ** (k - 1) > ten:
+            k -= 1
+        want = float(Fraction(2) ** k)
+        n += 1
+        ok = (got == want)
+        chk.instance(rule, {"precision": prec, "scale": got, "smallest_power_of_two_above_10^p": want, "cfg": cfg} if prec in (-M, 0, 2, M) else None, ok=ok)
+        if not ok:
+            bad.append((prec, got, want))
+    for b in bad[:1]:
+        chk.violation(rule, ctor.qual, "precision=%d" % b[0],
+                      "ClipperD's scale for precision %d is %r; the documented scale is the smallest power of two above 10^precision = %r "
+                      "(%d precision value(s) differ)" % (b[0], b[1], b[2], len(bad)), ctor.where, cfg=cfg)
+    return n
